@@ -43,7 +43,12 @@ fn check_derived(name: &str, g: &G, want: &Model, out: &mut Outcome) {
         return;
     }
     let mut o2 = Outcome::new();
-    let q = query_names(want, false);
+    let mut q = query_names(want, false);
+    if q.len() > 40 {
+        // the pairwise part of the coherence check is quadratic in the query names
+        let k = q.len();
+        q = [0, 1, 2, k / 4, k / 2, k - 4, k - 3, k - 2, k - 1].iter().map(|i| q[*i].clone()).collect();
+    }
     coherent(g, want, &q, false, &mut o2);
     traversal_check(g, want, &mut o2);
     out.api_calls += o2.api_calls;
@@ -96,7 +101,21 @@ impl Prop for C15 {
         let before = fingerprint(&g);
         let mut nontrivial = false;
         // ---- subgraph
-        let s: Vec<String> = case.subset.iter().map(|x| { let i = *x as usize % (n + 1); if i == n { ABSENT.to_string() } else { names[i].clone() } }).collect();
+        // On graphs of more than 64 nodes short requests draw from eight anchor positions (the first
+        // three nodes, which the structured shapes connect, the middle, the last two, a quarter,
+        // the absent name), so that a few names of a large graph repeat and touch each other
+        let anchors: Vec<usize> = if n > 64 { vec![0, 1, 2, n / 2, n - 1, n - 2, n / 4, n] } else { vec![] };
+        let s: Vec<String> = case
+            .subset
+            .iter()
+            .map(|x| {
+                let i = if !anchors.is_empty() && case.subset.len() <= 8 { anchors[*x as usize % anchors.len()] } else { *x as usize % (n + 1) };
+                if i == n { ABSENT.to_string() } else { names[i].clone() }
+            })
+            .collect();
+        if !anchors.is_empty() && case.subset.len() <= 8 && case.subset.len() >= 3 {
+            out.class("short_request_on_a_graph_of_more_than_64_nodes");
+        }
         out.api_calls += 1;
         match guard(|| g.get_subgraph(&s)) {
             Err(p) => out.fail(format!("get_subgraph/panic/{}", panic_class(&p)), p),
